@@ -1,6 +1,7 @@
 //! Verification harness for rust-circular-buffer (see /verif/DESIGN.md).
 //! Everything except `alloc_engine` needs the crate's default (`std`) feature set.
 pub mod alloc_engine;
+pub mod watch;
 
 #[cfg(feature = "cb-std")]
 pub mod case;
